@@ -216,18 +216,21 @@ type acct struct {
 }
 
 type sim struct {
-	plan    *Plan
-	prop    string
-	now     int64
-	seq     uint64
-	q       evHeap
-	accts   []*acct
-	verJump instant // accumulated verifier clock jumps (as offset)
-	viol    *verifh.Violation
-	nontriv bool
-	events  int
-	log     []string // event log (determinism self-test)
-	logOn   bool
+	lastTOTPSec    int64 // second and effective period of the latest TOTP call (for aliasing jumps)
+	lastTOTPPeriod uint64
+	lastTOTPSet    bool
+	plan           *Plan
+	prop           string
+	now            int64
+	seq            uint64
+	q              evHeap
+	accts          []*acct
+	verJump        instant // accumulated verifier clock jumps (as offset)
+	viol           *verifh.Violation
+	nontriv        bool
+	events         int
+	log            []string // event log (determinism self-test)
+	logOn          bool
 }
 
 func (s *sim) after(d int64, f func()) {
@@ -306,6 +309,10 @@ func guarded(f func()) (r callResult) {
 		r.meter = verifrt.Meter()
 		if p := recover(); p != nil {
 			if _, ok := p.(verifrt.WorkCapTrip); ok {
+				r.tripped = true
+			} else if d, ok := p.(verifrt.Deadlock); ok && d.PollingSelect {
+				// may be the simulator's (two selects facing each other on an unbuffered channel): no verdict
+				verifh.HarnessError("%v", d)
 				r.tripped = true
 			} else {
 				r.panicked, r.pval = true, p
@@ -943,10 +950,54 @@ func (s *sim) totpAim(a *acct, e *Event, deliverAt int64) {
 	verifh.Count("fault.clock-jump(aimed)", 1)
 }
 
+// totpAlias moves the token clock to an instant that shares its low bits with
+// the second of the previous TOTP call while the bits above carry that call's
+// period, this account's period, their XOR or a small number: the instants a
+// truncating, folding or XOR-combining key of (second, period) cannot tell
+// apart from the previous call.
+func (s *sim) totpAlias(a *acct, e *Event) {
+	if e.Alias <= 0 || !s.lastTOTPSet {
+		return
+	}
+	bits := []uint{32, 32, 32, 16, 24, 40, 48}[e.Alias%7]
+	sel := (e.Alias / 7) % 5
+	p := periodEff(a.Period)
+	var hi uint64
+	switch sel {
+	case 0:
+		hi = s.lastTOTPPeriod
+	case 1:
+		hi = p
+	case 2:
+		hi = s.lastTOTPPeriod ^ p
+	case 3:
+		hi = uint64(1 + (e.Alias/35)%64)
+	default:
+		hi = uint64(s.lastTOTPSec)>>bits + uint64(1+(e.Alias/35)%8)
+	}
+	var target uint64
+	if (e.Alias/280)%2 == 0 {
+		target = uint64(s.lastTOTPSec)&(1<<bits-1) | hi<<bits
+	} else {
+		target = uint64(s.lastTOTPSec) ^ hi<<bits
+	}
+	if target >= uint64(maxSec) || hi<<bits>>bits != hi {
+		return
+	}
+	cur := s.tokClock(a)
+	a.tokJumpS += int64(target) - cur.Sec
+	verifh.Count("fault.clock-jump-to-aliasing-instant", 1)
+}
+
+func (s *sim) noteTOTP(sec int64, period uint64) {
+	s.lastTOTPSec, s.lastTOTPPeriod, s.lastTOTPSet = sec, period, true
+}
+
 func (s *sim) totpPress(a *acct, e *Event) {
 	if e.Aimed {
 		s.totpAim(a, e, s.now+e.Net.DelayNs)
 	}
+	s.totpAlias(a, e)
 	tc := s.tokClock(a)
 	if tc.Sec < 0 || tc.Sec >= maxSec {
 		verifh.Count("skip.token-clock-out-of-domain", 1)
@@ -965,6 +1016,7 @@ func (s *sim) totpPress(a *acct, e *Event) {
 		}
 	}
 	r := guarded(func() { code, err = otp.GenerateTOTP(fresh(a.tokSecret), goTime(tc, a.Zone, a.Mono), tp) })
+	s.noteTOTP(tc.Sec, periodEff(a.Period))
 	step := uint64(tc.Sec) / periodEff(a.Period)
 	if r.panicked || r.tripped || err != nil {
 		verifh.Count("token.generate-failed", 1)
@@ -988,6 +1040,7 @@ func (s *sim) totpDeliver(a *acct, m message) {
 	var err error
 	tv := goTime(vc, a.Zone+1, a.Mono)
 	r := guarded(func() { ok, err = otp.ValidateTOTP(fresh(a.stored), fresh(m.code), tv, a.verParam()) })
+	s.noteTOTP(vc.Sec, p)
 	s.logf("totp deliver acct=%d ver=%d.%09d n=%d truth=%d code=%q -> %v %v", a.idx, vc.Sec, vc.Nsec, n, m.truth, m.code, ok, err)
 	s.events++
 	dist := int64(m.truth - n)
@@ -1067,6 +1120,7 @@ func (s *sim) totpDisplay(a *acct, e *Event) {
 			}
 		}
 	}
+	s.totpAlias(a, e)
 	tc := s.tokClock(a)
 	if tc.Sec < 0 || tc.Sec >= maxSec {
 		verifh.Count("skip.token-clock-out-of-domain", 1)
@@ -1106,6 +1160,7 @@ func (s *sim) totpDisplay(a *acct, e *Event) {
 		var got string
 		var err error
 		r := guarded(func() { got, err = otp.GenerateTOTP(fresh(a.tokSecret), v.t, param) })
+		s.noteTOTP(tc.Sec, p)
 		s.logf("display acct=%d t=%d.%09d %s n=%d -> %q %v", a.idx, tc.Sec, tc.Nsec, v.name, n, got, err)
 		if r.tripped {
 			s.fail("bounded-work", "GenerateTOTP", "work-cap", "GenerateTOTP exceeded the work cap")
